@@ -193,6 +193,7 @@ class RefGraph:
 
     # ---------------------------------------------------------- observation
     def observe(self):
+        from .world_g import typed_keys
         nid = {h: self.nodes[h].id for h in self.order}
         aid = {k: self.attackers[k].id for k in self.attacker_order}
         nodes = []
@@ -203,7 +204,7 @@ class RefGraph:
                 'asset': n.asset, 'ttc': n.ttc, 'defense_status': n.defense_status,
                 'existence_status': n.existence_status, 'is_viable': n.is_viable,
                 'is_necessary': n.is_necessary, 'tags': list(n.tags), 'mitre': n.mitre,
-                'extras': n.extras,
+                'extras': typed_keys(n.extras),
                 'children': sorted(nid[c] for c in self.children(h)),
                 'parents': sorted(nid[p] for p in self.parents(h)),
                 'compromised_by': sorted(aid[k] for k in self.compromised_by(h))})
